@@ -268,12 +268,18 @@ def bounded_builders(seed, dense):
             fail(klass, "Sphere(n1=%d, n2=%d): V %d (exp %d) F %d (exp %d) volume %r (ref %r) area %r (ref %r) latitudes %r" % (n1, n2, len(o.point_set), Vn, len(o.convex_polygons), Fn, o.volume(), _poly_volume(faces), o.area(), _poly_area(faces), lats), case)
     # parallelepipeds over independent lattice triples
     vs = [v for v in itertools.product((-2, -1, 0, 1, 2, 3), repeat=3) if any(v)]
-    for _ in range(400 if dense else 60):
-        a, b, d = rng.sample(vs, 3)
+    # corners that differ only by -1 / -2 in one coordinate (CPython: hash(-1) == hash(-2), so such Points have equal hashes and are told apart by == alone)
+    fixed = [((-2, 1, 0), (1, 0, 0), (0, -1, 2), (0, 1, 1)), ((-2, -2, -2), (1, 0, 0), (0, 1, 0), (0, 0, 1)), ((1, -2, 0), (0, 1, 0), (2, 0, 1), (0, 0, -1)), ((-1, -1, 1), (-1, 0, 0), (0, -1, 0), (1, 1, 1))]
+    for it in range((400 if dense else 60) + len(fixed)):
+        if it < len(fixed):
+            bs, a, b, d = fixed[it]
+        else:
+            bs = None
+            a, b, d = rng.sample(vs, 3)
         det = a[0] * (b[1] * d[2] - b[2] * d[1]) - a[1] * (b[0] * d[2] - b[2] * d[0]) + a[2] * (b[0] * d[1] - b[1] * d[0])
         if det == 0:
             continue
-        base = P(rng.randint(-8, 8), rng.randint(-8, 8), rng.randint(-8, 8))
+        base = P(*bs) if bs else P(rng.randint(-8, 8), rng.randint(-8, 8), rng.randint(-8, 8))
         va, vb, vd = V(*a), V(*b), V(*d)
         before = [snapshot(x) for x in (base, va, vb, vd)]
         klass = "Parallelepiped"
